@@ -24,6 +24,7 @@ import Desync.Model.Pool
 import Desync.Model.Chain
 import Desync.Model.Http
 import Driver.SparseAccept
+import Driver.IStore
 
 namespace Driver
 open Desync
@@ -611,6 +612,7 @@ def runLine (l : String) : String :=
     match cmd with
     | "idx.decode" => cmdIdxDecode a
     | "idx.encode" => cmdIdxEncode a
+    | "istore.ops" => IStoreCmd.cmdIStoreOps a
     | "chunk.all" => cmdChunkAll a
     | "chunk.ops" => cmdChunkOps a
     | "hash" => cmdHash a
